@@ -14,9 +14,20 @@ def wrap(pt, e):
     return pt.Seq(pt.Pop(e), pt.Int(1))
 
 
+def _typed_use(pt, e):
+    """use the value the way PyTeal's declared type allows: the emitted op then states that type (len needs bytes, + needs
+    uint64), so a declared type that differs from the AVM's is visible to the type analysis of the emitted program"""
+    t = e.type_of()
+    if t == pt.TealType.bytes:
+        return pt.Len(e)
+    if t == pt.TealType.uint64:
+        return e + pt.Int(1)
+    return e
+
+
 def _mv(pt, mv):
     if hasattr(mv, "hasValue"):
-        return pt.Seq(mv, pt.Pop(mv.hasValue()), mv.value())
+        return pt.Seq(mv, pt.Pop(mv.hasValue()), _typed_use(pt, mv.value()))
     slots = list(mv.output_slots)
     return pt.Seq(mv, *[pt.Pop(s.load()) for s in slots[:-1]], slots[-1].load())
 
